@@ -202,16 +202,17 @@ static int _upipe_setflowdef_get_dict(struct upipe *upipe, struct uref **dict_p)
 static int _upipe_setflowdef_set_dict(struct upipe *upipe, struct uref *dict)
 {
     struct upipe_setflowdef *upipe_setflowdef = upipe_setflowdef_from_upipe(upipe);
-    if (upipe_setflowdef->dict != NULL)
-        uref_free(upipe_setflowdef->dict);
+    struct uref *dup = NULL;
     if (dict != NULL) {
-        upipe_setflowdef->dict = uref_dup(dict);
-        if (upipe_setflowdef->dict == NULL) {
+        dup = uref_dup(dict);
+        if (dup == NULL) {
             upipe_throw_fatal(upipe, UBASE_ERR_ALLOC);
             return UBASE_ERR_ALLOC;
         }
-    } else
-        upipe_setflowdef->dict = NULL;
+    }
+    if (upipe_setflowdef->dict != NULL)
+        uref_free(upipe_setflowdef->dict);
+    upipe_setflowdef->dict = dup;
     upipe_setflowdef_build_flow_def(upipe);
     return UBASE_ERR_NONE;
 }
